@@ -28,10 +28,10 @@ Cplx(a, b) == Node("complex", "", <<Leaf("float", a), Leaf("float", b)>>)
 Elems(v) == {v.es[i] : i \in DOMAIN v.es}
 
 (* ------------------------------ value classes ------------------------------ *)
-IntC   == {"i_neg", "i_zero", "i_pos", "i_huge", "i_neghuge", "i_digits"}
+IntC   == {"i_neg", "i_negone", "i_zero", "i_one", "i_pos", "i_huge", "i_neghuge", "i_digits"}
 BoolC  == {"b_true", "b_false"}
 NoneC  == {"n_none"}
-FloatC == {"f_nan", "f_inf", "f_ninf", "f_negzero", "f_zero", "f_neg", "f_pos", "f_integral",
+FloatC == {"f_nan", "f_inf", "f_ninf", "f_negzero", "f_zero", "f_neg", "f_pos", "f_negfrac", "f_frac", "f_integral",
            "f_exp", "f_smallexp", "f_sub", "f_max", "f_negmax"}
 StrC   == {"s_plain", "s_squote", "s_dquote", "s_both", "s_backslash", "s_newline", "s_nonascii",
            "s_surrogate", "s_empty"}
@@ -40,7 +40,8 @@ EnumC  == {"e_top", "e_int", "e_negint", "e_str", "e_strquote", "e_flag", "e_fla
            "e_nested", "e_private", "e_foreign"}
 ObjC   == {"o_plain", "o_nested", "o_private", "o_local", "o_dynamic", "o_foreign", "o_decimal",
            "o_sized", "o_sized_raises", "o_bytearray", "o_range", "o_dict_keys", "o_function",
-           "o_generator", "o_module", "o_type", "o_deeplist", "o_floatsub", "o_intsub", "o_holder_float"}
+           "o_generator", "o_module", "o_type", "o_deeplist", "o_floatsub", "o_intsub", "o_holder_float",
+           "o_foreign_nested"}
 ClassesOf(k) == CASE k = "int" -> IntC [] k = "bool" -> BoolC [] k = "none" -> NoneC
                   [] k = "float" -> FloatC [] k = "str" -> StrC [] k = "bytes" -> BytesC
                   [] k = "enum" -> EnumC [] k = "obj" -> ObjC [] OTHER -> {}
@@ -50,11 +51,14 @@ ContainerKinds == SeqKinds \cup {"dict"}
 LeavesOf(kinds) == UNION {{Leaf(k, c) : c \in ClassesOf(k)} : k \in kinds}
 
 (* sign structure of the numeric classes: the representatives are symmetric *)
-Negative == {"i_neg", "i_neghuge", "f_neg", "f_ninf", "f_negmax"}
+Negative == {"i_neg", "i_negone", "i_neghuge", "f_neg", "f_negfrac", "f_ninf", "f_negmax"}
 AbsClass(c) == CASE c = "i_neg" -> "i_pos" [] c = "i_neghuge" -> "i_huge" [] c = "f_neg" -> "f_pos"
+                 [] c = "i_negone" -> "i_one" [] c = "f_negfrac" -> "f_frac"
                  [] c = "f_ninf" -> "f_inf" [] c = "f_negmax" -> "f_max" [] c = "f_negzero" -> "f_zero"
                  [] OTHER -> c
 NegClass(c) == CASE c = "i_pos" -> "i_neg" [] c = "i_huge" -> "i_neghuge" [] c = "f_pos" -> "f_neg"
+                 [] c = "i_one" -> "i_negone" [] c = "i_negone" -> "i_one"
+                 [] c = "f_frac" -> "f_negfrac" [] c = "f_negfrac" -> "f_frac"
                  [] c = "f_inf" -> "f_ninf" [] c = "f_max" -> "f_negmax" [] c = "f_zero" -> "f_negzero"
                  [] c = "i_neg" -> "i_pos" [] c = "i_neghuge" -> "i_huge" [] c = "f_neg" -> "f_pos"
                  [] c = "f_ninf" -> "f_inf" [] c = "f_negmax" -> "f_max" [] c = "f_negzero" -> "f_zero"
